@@ -2,9 +2,41 @@ SPEC = dict(
     props_file="C05",
     legs=[dict(family="cpc", oracles=["prop_ok"], profiles=["debug", "release"], n_quick=None, n_thorough=None,
                n_search=40, panic_is_violation=True)],
-    level_text="Theorems (Props/C05.v) over an executable model of cpc/sketch.rs + cpc/mod.rs.",
-    level_note="",
-    technique="Coq proof by invariant over (row,col) streams + differential correspondence model vs crate",
-    trusted=[],
-    assumptions=[],
+    level_text="Theorems (Props/C05.v) over an executable model of cpc/sketch.rs + cpc/mod.rs (one Gallina function per Rust "
+               "function: row_col_update with the first-interesting-column shortcut, update_sparse, promote_sparse_to_windowed, "
+               "update_windowed with the inverted early zone / window byte / late zone, move_window, build_bit_matrix, "
+               "determine_flavor, determine_correct_offset, update_hip and refresh_kxp in primitive binary64 floats; every "
+               "debug_assert!/assert!/expect/index on the path is a Stuck outcome). For ALL lg_k in 4..=26 and ALL streams of "
+               "(row,col) pairs with 8C < 475K (the domain in which the window offset stays <= 56): the sketch never panics; "
+               "build_bit_matrix returns exactly the OR-matrix of the pairs seen; num_coupons = its popcount = number of distinct "
+               "pairs; window_offset = determine_correct_offset(lg_k, C) <= 56; the window exists iff flavor > Sparse; "
+               "first_interesting_column <= offset and every column below it is full; validate() = true "
+               "(c05_cpc_refines, by an invariant preserved by every branch, incl. window moves: c05_from_matrix_abs shows that the "
+               "state rebuilt from any matrix at any offset <= 56 represents that matrix). c05_cpc_flavor_thresholds: the window "
+               "moves exactly when 8C >= (27+8w)K, by one column, to the correct offset. c05_cpc_flavor_spec / "
+               "c05_correct_offset_spec: closed forms of the two threshold functions. c05_hashed_pairs_valid: the pair derived "
+               "from any 128-bit hash is admissible, so the public update() is covered. "
+               "The model is tied to the crate by replaying generated streams (crafted column fills driving offsets 1..56 with "
+               "surprising zeros/ones, right-to-left fills, geometric random pairs, hashed items; lg_k 4..12, thorough: 13..16 and "
+               "sparse 21/26) in debug and release builds and comparing after every update C, offset, first interesting column, "
+               "flavor, kxp and HIP accumulator BIT-FOR-BIT, and at every window move/promotion the full state (window bytes, sorted "
+               "table, bit matrix, validate, estimate); the oracle re-derives all of it from the exact set of pairs.",
+    level_note="Trusted: Coq kernel (incl. primitive floats/int63), translator (the integer literals of the nine modelled Rust "
+               "function bodies, MIN/MAX_LG_K, KXP_BYTE_TABLE, INVERSE_POWERS_OF_2 are re-read on every run; c05_literals_manifest "
+               "breaks when one changes), harness/driver, pyref MurmurHash3 (checked in C16). NOT verified: PairTable's slot "
+               "layout (linear probing with deletion, re-insertion, grow/shrink) is modelled as a finite set (duplicate-free list); "
+               "its agreement with the crate is exercised by the correspondence run only (sorted table contents after deletions "
+               "inside clusters). Arithmetic is unbounded N in the theorems: the u32 shifts of determine_flavor are the subject of "
+               "C17. kxp/hip are executed and compared bit-for-bit but no theorem is stated about their values here (C01).",
+    technique="Coq proof by invariant (representation relation state -> bit matrix, three column zones) over all (row,col) "
+              "streams and all lg_k + differential correspondence model vs crate (debug+release) + exact-set oracle",
+    trusted=["(row,col) of hashed items are computed by tools/pyref.py (reference MurmurHash3, cross-checked in C16); the model "
+             "consumes h1,h2 and derives the pair itself (row_col_of_hash), the crate hashes the item",
+             "PairTable (cpc/pair_table.rs) slot layout is modelled as a finite set, not verified; in particular its capacity "
+             "limit (rebuild asserts lg_size + 1 <= lg_k + 6, i.e. more than 24K surprising values panic) is outside the model: "
+             "hashing cannot produce that many surprises, hook-driven streams are generated below it",
+             "u32/u64 overflow is outside the C05 theorems (unbounded N); see C17 for determine_flavor / determine_pseudo_phase"],
+    assumptions=["lg_k in 4..=26; every pair has row < K and is not the code u32::MAX (true for every pair update() derives from a hash)",
+                 "8 * num_coupons < 475 * K (C < 59.375 K): beyond it the correct window offset exceeds 56 and the crate, like "
+                 "Java/C++, asserts; unreachable by hashing"],
 )
